@@ -199,6 +199,12 @@ func (in *Interp) siteErr(site *V, class string) *Err {
 // putGlobal implements `set`'s binding rule.
 func (in *Interp) putGlobal(name string, v *V) *Err {
 	parts := strings.Split(name, ":")
+	if v.K == KFun && v.Fn.Builtin == nil && v.Fn.Special == nil {
+		if v.Fn.Bound == nil {
+			v.Fn.Bound = map[string]bool{}
+		}
+		v.Fn.Bound[localName(name)] = true
+	}
 	switch len(parts) {
 	case 1:
 		if name == "true" || name == "false" {
@@ -284,6 +290,8 @@ func (in *Interp) evalCall(env *Env, form *V) (*V, *Err) {
 		if e != nil {
 			return nil, e
 		}
+		// forms the macro built without any position take the macro call site
+		stampSite(exp, form.Src, 0)
 		return in.Eval(env, unquoteShallow(exp))
 	}
 	savedEnv := in.evalEnv
@@ -321,7 +329,7 @@ func (in *Interp) Apply(f *V, args []*V, site *sx.N, name string) (*V, *Err) {
 	if name == "" {
 		name = fn.Name
 	}
-	in.push(Frame{Name: name, Site: site, Kind: FnFunction, Anon: fn.Name == "" && name == ""})
+	in.push(Frame{Name: name, Site: site, Kind: FnFunction, Anon: fn.Name == "" && name == "", Fn: fn})
 	defer in.pop()
 	if len(in.Stack) > MaxModelDepth {
 		return nil, in.unsure("recursion deeper than the model follows")
@@ -526,3 +534,17 @@ func (e *Err) String() string {
 }
 
 var _ = fmt.Sprint
+
+func stampSite(v *V, site *sx.N, depth int) {
+	if v == nil || site == nil || depth > 200 || v == vNil || v == vTrue || v == vFalse {
+		return
+	}
+	if v.Src == nil && v.K != KFun && v.K != KVec && v.K != KMap && v.K != KBytes {
+		v.Src = site
+	}
+	if v.K == KList || v.K == KQuote {
+		for _, c := range v.L {
+			stampSite(c, site, depth+1)
+		}
+	}
+}
